@@ -100,7 +100,7 @@ theorem zero_disp_spec (values : List ℚ) (dt : ℚ) (hn : 2 ≤ values.length)
   obtain ⟨h1, h2⟩ := final_after_const values dt (2 * D / ((((values.length - 1 : ℕ) : ℚ) * dt) ^ 2)) _ D hne hV hD
   refine ⟨_, D, _, hV, hD, ?_, rfl, by simp, ?_, ?_⟩
   · simp only [setZeroResidualDisplacement, lastE_eq _ _ (timeArr_getLast values.length (by omega) dt), veloDispE_ne values dt hne, bind,
-      Except.bind, lastE_eq _ D hD', dispDelta, fmul_some, fdiv_some _ _ (mul_ne_zero hT hT), isubScalarE_all]
+      Except.bind, lastE_eq _ D hD', dispDelta, fmul_some, fdiv_some _ _ (pow_ne_zero 2 hT), isubScalarE_all]
     congr 2; funext x; ring
   · rw [h2]; congr 1; field_simp; ring
   · rw [h1]; congr 1; field_simp
